@@ -23,6 +23,9 @@ CASE_TIMEOUT = {"quick": 40, "thorough": 120}
 VALS = [0, 1, 2, 3, 5, None]
 
 
+ISO_INPUT = 0.05    # share of cases with an additional isolated free input
+
+
 def budget(tier):
     return 900 if tier == "quick" else 9000
 
